@@ -125,7 +125,12 @@ def impl_add_steps(fs, order):
         try:
             d.add_file(cf)
         except VFVE as e:
-            steps.append(("DIAG", str(e)))
+            # what the container still lists after the refusal (the files stored before it must all be there)
+            try:
+                after = [(x.name, x.extension, x.type.int, x.data_type.int, x.load_addr.int, x.exec_addr.int, bytes(x.data)) for x in d.list_files()]
+            except Exception as e2:  # noqa
+                after = "%s: %s" % (type(e2).__name__, e2)
+            steps.append(("DIAG", str(e), after))
             break
         except Exception as e:  # noqa
             steps.append(("INTERNAL", "%s: %s" % (type(e).__name__, e)))
@@ -287,6 +292,12 @@ def check_sequence(pid, fs, order, default_order, drv, rep, hist):
                     rep.violation("a file needing %d granules with %d free granules and %d directory entries used failed: %s" % (n, F, nent, s[1][:100]),
                                   dict(key, kind="seq", step=i))
                     found = True
+                elif len(s) > 2 and prev_img is not None:
+                    before = impl_list(prev_img)
+                    if before[0] == "OK" and (not isinstance(s[2], list) or not same_files([norm(x) for x in s[2]], [norm(x) for x in before[1]])):
+                        rep.violation("after a refused addition the container no longer lists the %d files stored before it (%s)" % (
+                            len(before[1]), ("%d files" % len(s[2])) if isinstance(s[2], list) else s[2][:80]), dict(key, kind="seq", step=i))
+                        found = True
             break
     if okfiles and not found:
         img = [s for s in steps if s[0] == "OK"][-1][1]
